@@ -297,7 +297,7 @@ theorem shift_ite (c : Prop) [Decidable c] (x y : S) :
     (if c then shift pre d x else shift pre d y) = shift pre d (if c then x else y) := by
   split <;> rfl
 
-/-- the line increment inside a string literal / on the character of a char literal -/
+/-- the line increment inside a string literal / on the character of a char literal / on the byte of a byte literal -/
 theorem shift_bump (c : Prop) [Decidable c] (a : S) :
     (if c then { shift pre d a with line := (shift pre d a).line + 1 } else shift pre d a) =
       shift pre d (if c then { a with line := a.line + 1 } else a) := by
@@ -457,12 +457,19 @@ theorem readIdentifier_shift (a : S) (h : Inv a) :
   cases a1.slice a.position a1.position with
   | none => rfl
   | some t =>
-    simp only [shift_ch, shift_readChar, shiftRes_ite, shift_mk, shiftRes_tok]
+    simp only [shift_readChar]
     generalize a1.readChar = a2
+    simp only [shift_bump]
     simp only [shift_position, shift_size, ge_iff_le, Nat.add_le_add_iff_right, shift_getD, shift_elem,
       shift_readChar, shift_ch, shift_mk, shiftRes_ite, shiftRes_tok]
-    have i3 := readChar_inv a2
-    generalize a2.readChar = a3 at i3
+    cases a2.at a2.position with
+    | none =>
+      simp only [shift_slice]
+      cases a2.slice a.position a2.input.size <;> (try simp only [shiftRes_ite, shiftRes_tok, shift_mk]) <;> rfl
+    | some c =>
+    simp only []
+    have i3 := readChar_inv (if (c == '\n') = true then { a2 with line := a2.line + 1 } else a2)
+    generalize (if (c == '\n') = true then { a2 with line := a2.line + 1 } else a2).readChar = a3 at i3
     simp only [shift_ite]
     have i4 : Inv (if (a3.ch == '\'') = true then a3.readChar else a3) := inv_condStep i3 _
     generalize (if (a3.ch == '\'') = true then a3.readChar else a3) = a4 at i4
@@ -473,7 +480,7 @@ theorem readIdentifier_shift (a : S) (h : Inv a) :
     generalize (if (a5.ch == '\'') = true then a5.readChar else a5) = a6
     generalize a2.slice a.position a2.input.size = o1
     generalize a6.slice a.position a6.position = o2
-    cases a2.at a2.position <;> cases o1 <;> cases o2 <;> (try simp only [shiftRes_ite, shiftRes_tok, shift_mk]) <;> rfl
+    cases o1 <;> cases o2 <;> (try simp only [shiftRes_ite, shiftRes_tok, shift_mk]) <;> rfl
 
 theorem numHead_shift (a : S) :
     numHead (shift pre d a) = (shift pre d (numHead a).1, (numHead a).2) := by
